@@ -514,7 +514,7 @@ package stackage
 //@ ensures[C18:SetParen.set] live && len(state) > 0 && state[0] ==> F_nodeConfig_opt[c] == o | 0x0001
 //@ ensures[C18:SetParen.clear] live && len(state) > 0 && !state[0] ==> F_nodeConfig_opt[c] == o &^ 0x0001
 //@ ensures[C18:SetParen.toggle] live && len(state) == 0 ==> F_nodeConfig_opt[c] == o ^ 0x0001
-//@ ensures[C18,C09:SetParen.dead] r != nil && !live ==> F_nodeConfig_opt[c] == o
+//@ ensures[C18,C09:SetParen.dead] !live ==> F_nodeConfig_opt[c] == o && F_nodeConfig_ldr[c] == old(F_nodeConfig_ldr[c])
 //@ ensures[:SetParen.ret] result == r
 //@ modifies F_nodeConfig_opt[c], F_nodeConfig_ldr[c], G_held
 
@@ -528,7 +528,7 @@ package stackage
 //@ ensures[C18:SetFold.set] live && len(state) > 0 && state[0] ==> F_nodeConfig_opt[c] == o | 0x0002
 //@ ensures[C18:SetFold.clear] live && len(state) > 0 && !state[0] ==> F_nodeConfig_opt[c] == o &^ 0x0002
 //@ ensures[C18:SetFold.toggle] live && len(state) == 0 ==> F_nodeConfig_opt[c] == o ^ 0x0002
-//@ ensures[C18,C09:SetFold.dead] r != nil && !live ==> F_nodeConfig_opt[c] == o
+//@ ensures[C18,C09:SetFold.dead] !live ==> F_nodeConfig_opt[c] == o && F_nodeConfig_ldr[c] == old(F_nodeConfig_ldr[c])
 //@ ensures[:SetFold.ret] result == r
 //@ modifies F_nodeConfig_opt[c], F_nodeConfig_ldr[c], G_held
 
@@ -542,7 +542,7 @@ package stackage
 //@ ensures[C18:SetNoPadding.set] live && len(state) > 0 && state[0] ==> F_nodeConfig_opt[c] == o | 0x0004
 //@ ensures[C18:SetNoPadding.clear] live && len(state) > 0 && !state[0] ==> F_nodeConfig_opt[c] == o &^ 0x0004
 //@ ensures[C18:SetNoPadding.toggle] live && len(state) == 0 ==> F_nodeConfig_opt[c] == o ^ 0x0004
-//@ ensures[C18,C09:SetNoPadding.dead] r != nil && !live ==> F_nodeConfig_opt[c] == o
+//@ ensures[C18,C09:SetNoPadding.dead] !live ==> F_nodeConfig_opt[c] == o && F_nodeConfig_ldr[c] == old(F_nodeConfig_ldr[c])
 //@ ensures[:SetNoPadding.ret] result == r
 //@ modifies F_nodeConfig_opt[c], F_nodeConfig_ldr[c], G_held
 
@@ -556,7 +556,7 @@ package stackage
 //@ ensures[C18:SetLeadOnce.set] live && len(state) > 0 && state[0] ==> F_nodeConfig_opt[c] == o | 0x0008
 //@ ensures[C18:SetLeadOnce.clear] live && len(state) > 0 && !state[0] ==> F_nodeConfig_opt[c] == o &^ 0x0008
 //@ ensures[C18:SetLeadOnce.toggle] live && len(state) == 0 ==> F_nodeConfig_opt[c] == o ^ 0x0008
-//@ ensures[C18,C09:SetLeadOnce.dead] r != nil && !live ==> F_nodeConfig_opt[c] == o
+//@ ensures[C18,C09:SetLeadOnce.dead] !live ==> F_nodeConfig_opt[c] == o && F_nodeConfig_ldr[c] == old(F_nodeConfig_ldr[c])
 //@ ensures[:SetLeadOnce.ret] result == r
 //@ modifies F_nodeConfig_opt[c], F_nodeConfig_ldr[c], G_held
 
@@ -570,7 +570,7 @@ package stackage
 //@ ensures[C18:SetNegativeIndices.set] live && len(state) > 0 && state[0] ==> F_nodeConfig_opt[c] == o | 0x0010
 //@ ensures[C18:SetNegativeIndices.clear] live && len(state) > 0 && !state[0] ==> F_nodeConfig_opt[c] == o &^ 0x0010
 //@ ensures[C18:SetNegativeIndices.toggle] live && len(state) == 0 ==> F_nodeConfig_opt[c] == o ^ 0x0010
-//@ ensures[C18,C09:SetNegativeIndices.dead] r != nil && !live ==> F_nodeConfig_opt[c] == o
+//@ ensures[C18,C09:SetNegativeIndices.dead] !live ==> F_nodeConfig_opt[c] == o && F_nodeConfig_ldr[c] == old(F_nodeConfig_ldr[c])
 //@ ensures[:SetNegativeIndices.ret] result == r
 //@ modifies F_nodeConfig_opt[c], F_nodeConfig_ldr[c], G_held
 
@@ -584,7 +584,7 @@ package stackage
 //@ ensures[C18:SetForwardIndices.set] live && len(state) > 0 && state[0] ==> F_nodeConfig_opt[c] == o | 0x0020
 //@ ensures[C18:SetForwardIndices.clear] live && len(state) > 0 && !state[0] ==> F_nodeConfig_opt[c] == o &^ 0x0020
 //@ ensures[C18:SetForwardIndices.toggle] live && len(state) == 0 ==> F_nodeConfig_opt[c] == o ^ 0x0020
-//@ ensures[C18,C09:SetForwardIndices.dead] r != nil && !live ==> F_nodeConfig_opt[c] == o
+//@ ensures[C18,C09:SetForwardIndices.dead] !live ==> F_nodeConfig_opt[c] == o && F_nodeConfig_ldr[c] == old(F_nodeConfig_ldr[c])
 //@ ensures[:SetForwardIndices.ret] result == r
 //@ modifies F_nodeConfig_opt[c], F_nodeConfig_ldr[c], G_held
 
@@ -598,7 +598,7 @@ package stackage
 //@ ensures[C18:SetReadOnly.set] live && len(state) > 0 && state[0] ==> F_nodeConfig_opt[c] == o | 0x0080
 //@ ensures[C18:SetReadOnly.clear] live && len(state) > 0 && !state[0] ==> F_nodeConfig_opt[c] == o &^ 0x0080
 //@ ensures[C18:SetReadOnly.toggle] live && len(state) == 0 ==> F_nodeConfig_opt[c] == o ^ 0x0080
-//@ ensures[C18,C09:SetReadOnly.dead] r != nil && !live ==> F_nodeConfig_opt[c] == o
+//@ ensures[C18,C09:SetReadOnly.dead] !live ==> F_nodeConfig_opt[c] == o && F_nodeConfig_ldr[c] == old(F_nodeConfig_ldr[c])
 //@ ensures[:SetReadOnly.ret] result == r
 //@ modifies F_nodeConfig_opt[c], F_nodeConfig_ldr[c], G_held
 
@@ -612,7 +612,7 @@ package stackage
 //@ ensures[C18:SetNoNesting.set] live && len(state) > 0 && state[0] ==> F_nodeConfig_opt[c] == o | 0x0100
 //@ ensures[C18:SetNoNesting.clear] live && len(state) > 0 && !state[0] ==> F_nodeConfig_opt[c] == o &^ 0x0100
 //@ ensures[C18:SetNoNesting.toggle] live && len(state) == 0 ==> F_nodeConfig_opt[c] == o ^ 0x0100
-//@ ensures[C18,C09:SetNoNesting.dead] r != nil && !live ==> F_nodeConfig_opt[c] == o
+//@ ensures[C18,C09:SetNoNesting.dead] !live ==> F_nodeConfig_opt[c] == o && F_nodeConfig_ldr[c] == old(F_nodeConfig_ldr[c])
 //@ ensures[:SetNoNesting.ret] result == r
 //@ modifies F_nodeConfig_opt[c], F_nodeConfig_ldr[c], G_held
 
@@ -626,7 +626,7 @@ package stackage
 //@ ensures[C18:Paren.set] live && len(state) > 0 && state[0] ==> F_nodeConfig_opt[c] == o | 0x0001
 //@ ensures[C18:Paren.clear] live && len(state) > 0 && !state[0] ==> F_nodeConfig_opt[c] == o &^ 0x0001
 //@ ensures[C18:Paren.toggle] live && len(state) == 0 ==> F_nodeConfig_opt[c] == o ^ 0x0001
-//@ ensures[C18,C09:Paren.dead] r != nil && !live ==> F_nodeConfig_opt[c] == o
+//@ ensures[C18,C09:Paren.dead] !live ==> F_nodeConfig_opt[c] == o && F_nodeConfig_ldr[c] == old(F_nodeConfig_ldr[c])
 //@ ensures[:Paren.ret] result == r
 //@ modifies F_nodeConfig_opt[c], F_nodeConfig_ldr[c], G_held
 
@@ -640,7 +640,7 @@ package stackage
 //@ ensures[C18:Fold.set] live && len(state) > 0 && state[0] ==> F_nodeConfig_opt[c] == o | 0x0002
 //@ ensures[C18:Fold.clear] live && len(state) > 0 && !state[0] ==> F_nodeConfig_opt[c] == o &^ 0x0002
 //@ ensures[C18:Fold.toggle] live && len(state) == 0 ==> F_nodeConfig_opt[c] == o ^ 0x0002
-//@ ensures[C18,C09:Fold.dead] r != nil && !live ==> F_nodeConfig_opt[c] == o
+//@ ensures[C18,C09:Fold.dead] !live ==> F_nodeConfig_opt[c] == o && F_nodeConfig_ldr[c] == old(F_nodeConfig_ldr[c])
 //@ ensures[:Fold.ret] result == r
 //@ modifies F_nodeConfig_opt[c], F_nodeConfig_ldr[c], G_held
 
@@ -654,7 +654,7 @@ package stackage
 //@ ensures[C18:NoPadding.set] live && len(state) > 0 && state[0] ==> F_nodeConfig_opt[c] == o | 0x0004
 //@ ensures[C18:NoPadding.clear] live && len(state) > 0 && !state[0] ==> F_nodeConfig_opt[c] == o &^ 0x0004
 //@ ensures[C18:NoPadding.toggle] live && len(state) == 0 ==> F_nodeConfig_opt[c] == o ^ 0x0004
-//@ ensures[C18,C09:NoPadding.dead] r != nil && !live ==> F_nodeConfig_opt[c] == o
+//@ ensures[C18,C09:NoPadding.dead] !live ==> F_nodeConfig_opt[c] == o && F_nodeConfig_ldr[c] == old(F_nodeConfig_ldr[c])
 //@ ensures[:NoPadding.ret] result == r
 //@ modifies F_nodeConfig_opt[c], F_nodeConfig_ldr[c], G_held
 
@@ -668,7 +668,7 @@ package stackage
 //@ ensures[C18:LeadOnce.set] live && len(state) > 0 && state[0] ==> F_nodeConfig_opt[c] == o | 0x0008
 //@ ensures[C18:LeadOnce.clear] live && len(state) > 0 && !state[0] ==> F_nodeConfig_opt[c] == o &^ 0x0008
 //@ ensures[C18:LeadOnce.toggle] live && len(state) == 0 ==> F_nodeConfig_opt[c] == o ^ 0x0008
-//@ ensures[C18,C09:LeadOnce.dead] r != nil && !live ==> F_nodeConfig_opt[c] == o
+//@ ensures[C18,C09:LeadOnce.dead] !live ==> F_nodeConfig_opt[c] == o && F_nodeConfig_ldr[c] == old(F_nodeConfig_ldr[c])
 //@ ensures[:LeadOnce.ret] result == r
 //@ modifies F_nodeConfig_opt[c], F_nodeConfig_ldr[c], G_held
 
@@ -682,7 +682,7 @@ package stackage
 //@ ensures[C18:NegativeIndices.set] live && len(state) > 0 && state[0] ==> F_nodeConfig_opt[c] == o | 0x0010
 //@ ensures[C18:NegativeIndices.clear] live && len(state) > 0 && !state[0] ==> F_nodeConfig_opt[c] == o &^ 0x0010
 //@ ensures[C18:NegativeIndices.toggle] live && len(state) == 0 ==> F_nodeConfig_opt[c] == o ^ 0x0010
-//@ ensures[C18,C09:NegativeIndices.dead] r != nil && !live ==> F_nodeConfig_opt[c] == o
+//@ ensures[C18,C09:NegativeIndices.dead] !live ==> F_nodeConfig_opt[c] == o && F_nodeConfig_ldr[c] == old(F_nodeConfig_ldr[c])
 //@ ensures[:NegativeIndices.ret] result == r
 //@ modifies F_nodeConfig_opt[c], F_nodeConfig_ldr[c], G_held
 
@@ -696,7 +696,7 @@ package stackage
 //@ ensures[C18:ForwardIndices.set] live && len(state) > 0 && state[0] ==> F_nodeConfig_opt[c] == o | 0x0020
 //@ ensures[C18:ForwardIndices.clear] live && len(state) > 0 && !state[0] ==> F_nodeConfig_opt[c] == o &^ 0x0020
 //@ ensures[C18:ForwardIndices.toggle] live && len(state) == 0 ==> F_nodeConfig_opt[c] == o ^ 0x0020
-//@ ensures[C18,C09:ForwardIndices.dead] r != nil && !live ==> F_nodeConfig_opt[c] == o
+//@ ensures[C18,C09:ForwardIndices.dead] !live ==> F_nodeConfig_opt[c] == o && F_nodeConfig_ldr[c] == old(F_nodeConfig_ldr[c])
 //@ ensures[:ForwardIndices.ret] result == r
 //@ modifies F_nodeConfig_opt[c], F_nodeConfig_ldr[c], G_held
 
@@ -710,7 +710,7 @@ package stackage
 //@ ensures[C18:ReadOnly.set] live && len(state) > 0 && state[0] ==> F_nodeConfig_opt[c] == o | 0x0080
 //@ ensures[C18:ReadOnly.clear] live && len(state) > 0 && !state[0] ==> F_nodeConfig_opt[c] == o &^ 0x0080
 //@ ensures[C18:ReadOnly.toggle] live && len(state) == 0 ==> F_nodeConfig_opt[c] == o ^ 0x0080
-//@ ensures[C18,C09:ReadOnly.dead] r != nil && !live ==> F_nodeConfig_opt[c] == o
+//@ ensures[C18,C09:ReadOnly.dead] !live ==> F_nodeConfig_opt[c] == o && F_nodeConfig_ldr[c] == old(F_nodeConfig_ldr[c])
 //@ ensures[:ReadOnly.ret] result == r
 //@ modifies F_nodeConfig_opt[c], F_nodeConfig_ldr[c], G_held
 
@@ -724,7 +724,7 @@ package stackage
 //@ ensures[C18:NoNesting.set] live && len(state) > 0 && state[0] ==> F_nodeConfig_opt[c] == o | 0x0100
 //@ ensures[C18:NoNesting.clear] live && len(state) > 0 && !state[0] ==> F_nodeConfig_opt[c] == o &^ 0x0100
 //@ ensures[C18:NoNesting.toggle] live && len(state) == 0 ==> F_nodeConfig_opt[c] == o ^ 0x0100
-//@ ensures[C18,C09:NoNesting.dead] r != nil && !live ==> F_nodeConfig_opt[c] == o
+//@ ensures[C18,C09:NoNesting.dead] !live ==> F_nodeConfig_opt[c] == o && F_nodeConfig_ldr[c] == old(F_nodeConfig_ldr[c])
 //@ ensures[:NoNesting.ret] result == r
 //@ modifies F_nodeConfig_opt[c], F_nodeConfig_ldr[c], G_held
 
@@ -738,7 +738,7 @@ package stackage
 //@ ensures[C18:Cond.SetParen.set] live && len(state) > 0 && state[0] ==> F_nodeConfig_opt[c] == o | 0x0001
 //@ ensures[C18:Cond.SetParen.clear] live && len(state) > 0 && !state[0] ==> F_nodeConfig_opt[c] == o &^ 0x0001
 //@ ensures[C18:Cond.SetParen.toggle] live && len(state) == 0 ==> F_nodeConfig_opt[c] == o ^ 0x0001
-//@ ensures[C18,C09:Cond.SetParen.dead] r != nil && !live ==> F_nodeConfig_opt[c] == o
+//@ ensures[C18,C09:Cond.SetParen.dead] !live ==> F_nodeConfig_opt[c] == o
 //@ ensures[:Cond.SetParen.ret] result == r
 //@ modifies F_nodeConfig_opt[c]
 
@@ -752,7 +752,7 @@ package stackage
 //@ ensures[C18:Cond.SetNoPadding.set] live && len(state) > 0 && state[0] ==> F_nodeConfig_opt[c] == o | 0x0004
 //@ ensures[C18:Cond.SetNoPadding.clear] live && len(state) > 0 && !state[0] ==> F_nodeConfig_opt[c] == o &^ 0x0004
 //@ ensures[C18:Cond.SetNoPadding.toggle] live && len(state) == 0 ==> F_nodeConfig_opt[c] == o ^ 0x0004
-//@ ensures[C18,C09:Cond.SetNoPadding.dead] r != nil && !live ==> F_nodeConfig_opt[c] == o
+//@ ensures[C18,C09:Cond.SetNoPadding.dead] !live ==> F_nodeConfig_opt[c] == o
 //@ ensures[:Cond.SetNoPadding.ret] result == r
 //@ modifies F_nodeConfig_opt[c]
 
@@ -766,7 +766,7 @@ package stackage
 //@ ensures[C18:Cond.SetReadOnly.set] live && len(state) > 0 && state[0] ==> F_nodeConfig_opt[c] == o | 0x0080
 //@ ensures[C18:Cond.SetReadOnly.clear] live && len(state) > 0 && !state[0] ==> F_nodeConfig_opt[c] == o &^ 0x0080
 //@ ensures[C18:Cond.SetReadOnly.toggle] live && len(state) == 0 ==> F_nodeConfig_opt[c] == o ^ 0x0080
-//@ ensures[C18,C09:Cond.SetReadOnly.dead] r != nil && !live ==> F_nodeConfig_opt[c] == o
+//@ ensures[C18,C09:Cond.SetReadOnly.dead] !live ==> F_nodeConfig_opt[c] == o
 //@ ensures[:Cond.SetReadOnly.ret] result == r
 //@ modifies F_nodeConfig_opt[c]
 
@@ -780,7 +780,7 @@ package stackage
 //@ ensures[C18:Cond.SetNoNesting.set] live && len(state) > 0 && state[0] ==> F_nodeConfig_opt[c] == o | 0x0100
 //@ ensures[C18:Cond.SetNoNesting.clear] live && len(state) > 0 && !state[0] ==> F_nodeConfig_opt[c] == o &^ 0x0100
 //@ ensures[C18:Cond.SetNoNesting.toggle] live && len(state) == 0 ==> F_nodeConfig_opt[c] == o ^ 0x0100
-//@ ensures[C18,C09:Cond.SetNoNesting.dead] r != nil && !live ==> F_nodeConfig_opt[c] == o
+//@ ensures[C18,C09:Cond.SetNoNesting.dead] !live ==> F_nodeConfig_opt[c] == o
 //@ ensures[:Cond.SetNoNesting.ret] result == r
 //@ modifies F_nodeConfig_opt[c]
 
@@ -794,7 +794,7 @@ package stackage
 //@ ensures[C18:Cond.Paren.set] live && len(state) > 0 && state[0] ==> F_nodeConfig_opt[c] == o | 0x0001
 //@ ensures[C18:Cond.Paren.clear] live && len(state) > 0 && !state[0] ==> F_nodeConfig_opt[c] == o &^ 0x0001
 //@ ensures[C18:Cond.Paren.toggle] live && len(state) == 0 ==> F_nodeConfig_opt[c] == o ^ 0x0001
-//@ ensures[C18,C09:Cond.Paren.dead] r != nil && !live ==> F_nodeConfig_opt[c] == o
+//@ ensures[C18,C09:Cond.Paren.dead] !live ==> F_nodeConfig_opt[c] == o
 //@ ensures[:Cond.Paren.ret] result == r
 //@ modifies F_nodeConfig_opt[c]
 
@@ -808,7 +808,7 @@ package stackage
 //@ ensures[C18:Cond.NoPadding.set] live && len(state) > 0 && state[0] ==> F_nodeConfig_opt[c] == o | 0x0004
 //@ ensures[C18:Cond.NoPadding.clear] live && len(state) > 0 && !state[0] ==> F_nodeConfig_opt[c] == o &^ 0x0004
 //@ ensures[C18:Cond.NoPadding.toggle] live && len(state) == 0 ==> F_nodeConfig_opt[c] == o ^ 0x0004
-//@ ensures[C18,C09:Cond.NoPadding.dead] r != nil && !live ==> F_nodeConfig_opt[c] == o
+//@ ensures[C18,C09:Cond.NoPadding.dead] !live ==> F_nodeConfig_opt[c] == o
 //@ ensures[:Cond.NoPadding.ret] result == r
 //@ modifies F_nodeConfig_opt[c]
 
@@ -822,7 +822,7 @@ package stackage
 //@ ensures[C18:Cond.NoNesting.set] live && len(state) > 0 && state[0] ==> F_nodeConfig_opt[c] == o | 0x0100
 //@ ensures[C18:Cond.NoNesting.clear] live && len(state) > 0 && !state[0] ==> F_nodeConfig_opt[c] == o &^ 0x0100
 //@ ensures[C18:Cond.NoNesting.toggle] live && len(state) == 0 ==> F_nodeConfig_opt[c] == o ^ 0x0100
-//@ ensures[C18,C09:Cond.NoNesting.dead] r != nil && !live ==> F_nodeConfig_opt[c] == o
+//@ ensures[C18,C09:Cond.NoNesting.dead] !live ==> F_nodeConfig_opt[c] == o
 //@ ensures[:Cond.NoNesting.ret] result == r
 //@ modifies F_nodeConfig_opt[c]
 
